@@ -41,6 +41,63 @@ unsafe impl std::alloc::GlobalAlloc for Counting {
     }
 }
 
+// ---------------------------------------------------------------------------
+// simulated clock: the executable's own `clock_gettime` wins over libc's for every reference from
+// statically linked code (std::time::Instant / SystemTime in delta and its dependencies), so the
+// simulator owns time without any change to delta.  Per thread: one simulation per worker.
+
+thread_local! {
+    static SIM_OWN_CLOCK: Cell<bool> = const { Cell::new(false) };
+    static SIM_ELAPSED_NS: Cell<i64> = const { Cell::new(0) };
+    static SIM_TICKS: Cell<i64> = const { Cell::new(0) };
+    static SIM_CLOCK_READS: Cell<u64> = const { Cell::new(0) };
+}
+
+pub const SIM_WALL_BASE: i64 = 1_700_000_000;
+
+#[no_mangle]
+pub unsafe extern "C" fn clock_gettime(clk: libc::clockid_t, ts: *mut libc::timespec) -> libc::c_int {
+    let own = SIM_OWN_CLOCK.try_with(|c| c.get()).unwrap_or(false);
+    if own && !ts.is_null() {
+        let e = SIM_ELAPSED_NS.with(|c| c.get());
+        let _ = SIM_CLOCK_READS.try_with(|c| c.set(c.get() + 1));
+        match clk {
+            libc::CLOCK_MONOTONIC | libc::CLOCK_MONOTONIC_COARSE | libc::CLOCK_MONOTONIC_RAW | libc::CLOCK_BOOTTIME => {
+                let t = SIM_TICKS.with(|c| {
+                    c.set(c.get() + 1);
+                    c.get()
+                });
+                let v = 1000i64 * 1_000_000_000 + e + 1000 * t;
+                (*ts).tv_sec = v / 1_000_000_000;
+                (*ts).tv_nsec = v % 1_000_000_000;
+                return 0;
+            }
+            libc::CLOCK_REALTIME | libc::CLOCK_REALTIME_COARSE => {
+                (*ts).tv_sec = SIM_WALL_BASE + e / 1_000_000_000;
+                (*ts).tv_nsec = e % 1_000_000_000;
+                return 0;
+            }
+            _ => {}
+        }
+    }
+    libc::syscall(libc::SYS_clock_gettime, clk, ts) as libc::c_int
+}
+
+pub fn sim_clock_begin() {
+    SIM_OWN_CLOCK.with(|c| c.set(true));
+    SIM_ELAPSED_NS.with(|c| c.set(0));
+    SIM_TICKS.with(|c| c.set(0));
+}
+pub fn sim_clock_end() {
+    SIM_OWN_CLOCK.with(|c| c.set(false));
+}
+pub fn sim_clock_advance_ms(ms: u64) {
+    SIM_ELAPSED_NS.with(|c| c.set(c.get() + ms as i64 * 1_000_000));
+}
+pub fn sim_clock_reads() -> u64 {
+    SIM_CLOCK_READS.with(|c| c.get())
+}
+
 pub fn live_heap() -> isize {
     LIVE.with(|c| c.get())
 }
@@ -72,6 +129,7 @@ pub struct Shared {
     pub writes_after_failure: usize,
     pub reads_after_failure: usize,
     pub flushes: usize,
+    pub clock_advances: usize,
 }
 
 pub type SharedRef = Rc<RefCell<Shared>>;
@@ -83,13 +141,16 @@ pub struct SimReader {
     buf_start: usize,
     buf_end: usize,
     schedule: Vec<usize>,
+    /// simulated pause of the producer (ms) before each delivery, cyclic
+    delays_ms: Vec<u64>,
     step: usize,
+    dstep: usize,
     shared: SharedRef,
 }
 
 impl SimReader {
-    pub fn new(data: Rc<Vec<u8>>, schedule: Vec<usize>, shared: SharedRef) -> Self {
-        SimReader { data, pos: 0, buf_start: 0, buf_end: 0, schedule, step: 0, shared }
+    pub fn new(data: Rc<Vec<u8>>, schedule: Vec<usize>, delays_ms: Vec<u64>, shared: SharedRef) -> Self {
+        SimReader { data, pos: 0, buf_start: 0, buf_end: 0, schedule, delays_ms, step: 0, dstep: 0, shared }
     }
 }
 
@@ -118,6 +179,14 @@ impl BufRead for SimReader {
                 if sh.record_quiescence {
                     let q = Quiescence { delivered: self.pos, written: sh.written, heap: live_heap() };
                     sh.quiescence.push(q);
+                }
+            }
+            if !self.delays_ms.is_empty() {
+                let d = self.delays_ms[self.dstep % self.delays_ms.len()];
+                self.dstep += 1;
+                if d > 0 {
+                    sim_clock_advance_ms(d);
+                    self.shared.borrow_mut().clock_advances += 1;
                 }
             }
             if self.pos >= self.data.len() {
@@ -226,6 +295,7 @@ pub struct RunParams<'a> {
     pub config: &'a dh::Config,
     pub data: Rc<Vec<u8>>,
     pub rschedule: Vec<usize>,
+    pub rdelays_ms: Vec<u64>,
     pub wplan: Vec<i64>,
     pub fail_at: Option<usize>,
     pub fail_kind: io::ErrorKind,
@@ -236,10 +306,12 @@ pub struct RunParams<'a> {
 pub fn run_delta(p: RunParams) -> RunOutcome {
     use bytelines::ByteLinesReader;
     let shared: SharedRef = Rc::new(RefCell::new(Shared { keep_output: p.keep_output, record_quiescence: p.record_quiescence, ..Default::default() }));
-    let reader = SimReader::new(p.data.clone(), p.rschedule, shared.clone());
+    let reader = SimReader::new(p.data.clone(), p.rschedule, p.rdelays_ms, shared.clone());
+    sim_clock_begin();
     let mut writer = SimWriter::new(p.wplan, p.fail_at, p.fail_kind, shared.clone());
     let cfg = p.config;
     let r = std::panic::catch_unwind(std::panic::AssertUnwindSafe(|| dh::delta(reader.byte_lines(), &mut writer, cfg)));
+    sim_clock_end();
     let result = r.map_err(|e| e.downcast_ref::<String>().cloned().or_else(|| e.downcast_ref::<&str>().map(|s| s.to_string())).unwrap_or_else(|| "panic".into()));
     drop(writer);
     let sh = match Rc::try_unwrap(shared) {
